@@ -34,6 +34,16 @@ The only hypothesis on the machine is that it is still RUNNING after the cycles 
    exceptional cycle.
 2. LCD (C13/C14).  `whole_lcd_trace`, `whole_lcd_run`, `c13_whole`, `whole_lcd_reads`, `whole_lcd_irq`,
    `c14_whole_requests`, `c14_whole_vblank`.
+3. CARTRIDGE (C08/C10).  `whole_cart_trace`, `whole_cart_run` (needs the invariant of reachable states `WholeOk`: a
+   well-formed controller never panics on a write), `whole_cart_read`, `c08_whole`, `c10_whole_clock_read`.  Reads
+   (CPU and DMA engine) are not operations of the cartridge model: they have no effect on it.  No C09 corollary is
+   stated (the `c09_refines_*` theorems are per controller, for `MbcN.new …` start states; `whole_cart_run` is what
+   they need).
+4. APU (C18/C20).  `whole_apu_trace`, `whole_apu_run`, `whole_apu_read`, `c18_whole`, `c20_whole`.
+5. JOYPAD (C22).  `whole_joyp_trace`, `whole_joyp_run` (schedules of machine cycles AND button actions),
+   `whole_joyp_read`, `c22_whole`.
+Helpers: Lemmas/BoardTrace.lean (`cycle_fold`, `cpu_part_fold`, `end_cycle_shape`, `board_write_timer/cart/joyp/apu`,
+`running_prefix`, `constructed_running`), Lemmas/TimerInv.lean (`minv_cycle`, `minv_run`).
 -/
 namespace Tetro.WholeTraces
 open Tetro.Model Tetro.Model.Machine Tetro.Model.Whole
